@@ -40,7 +40,7 @@ from dask_expr._expr import (
     determine_column_projection,
     plain_column_projection,
 )
-from dask_expr._util import _tokenize_deterministic, is_scalar
+from dask_expr._util import _convert_to_list, _tokenize_deterministic, is_scalar
 
 
 class Chunk(Blockwise):
@@ -1308,6 +1308,24 @@ class NLargest(ReductionConstantDim):
     @property
     def aggregate_kwargs(self):
         return self.chunk_kwargs
+
+    def _simplify_up(self, parent, dependents):
+        if isinstance(parent, Projection):
+            # We need the columns that we are ordering by
+            columns = determine_column_projection(
+                self,
+                parent,
+                dependents,
+                additional_columns=_convert_to_list(self._columns),
+            )
+            columns = _convert_to_list(columns)
+            columns = [col for col in self.frame.columns if col in columns]
+            if columns == self.frame.columns:
+                return
+            return type(parent)(
+                type(self)(self.frame[columns], *self.operands[1:]),
+                *parent.operands[1:],
+            )
 
 
 def _nfirst(df, columns, n, ascending):
